@@ -858,6 +858,50 @@ fn structured(rng: &mut Rng, out: &mut Vec<Case>) {
         b.imp(r, vec![11], if shadow == 1 { Form::Module } else { f });
         out.push(b.done(&format!("entry-dir-lookup{}", shadow)));
     }
+    // the same file name next to the entry AND in a module directory: an importer in a directory WITHOUT that file
+    // reaches the entry's (second lookup place), an importer in the directory WITH it reaches its own -- whichever
+    // of the two is loaded first (a resolution remembered per spelling, not per importing directory, gets it wrong
+    // in one order only).  layout 1: the entry imports its own copy too; 2: a third directory falls back again
+    // after the shadowing one; 3: the shadowing directory lies below the one that falls back
+    for layout in 0..4 {
+        for order in 0..2 {
+            let mut b = B::new();
+            let d_entry = defs_for(rng, 0);
+            let d_own = defs_for(rng, 1);
+            b.file(vec![11], d_entry.clone());
+            let (dir_a, dir_b): (Vec<Id>, Vec<Id>) = if layout == 3 { (vec![20], vec![20, 22]) } else { (vec![20], vec![21]) };
+            let mut pa = dir_a.clone();
+            pa.push(10);
+            let r = b.file(pa.clone(), defs_for(rng, 2));
+            let mut pc = dir_b.clone();
+            pc.push(11);
+            b.file(pc, d_own.clone());
+            let mut px = dir_b.clone();
+            px.push(12);
+            let x = b.file(px.clone(), defs_for(rng, 3));
+            let fa = rand_form(rng, &d_entry, 72, true);
+            b.imp(r, vec![11], fa);
+            let fb = rand_form(rng, &d_own, 73, true);
+            b.imp(x, vec![11], fb);
+            if layout == 1 {
+                b.imp(0, vec![11], Form::Alias(74));
+            }
+            let mut firsts = vec![(pa, 70), (px, 71)];
+            if order == 1 {
+                firsts.reverse();
+            }
+            for (p, a) in firsts {
+                b.imp(0, p, Form::Alias(a));
+            }
+            if layout == 2 {
+                let y = b.file(vec![23, 13], defs_for(rng, 4));
+                let fc = rand_form(rng, &d_entry, 75, true);
+                b.imp(y, vec![11], fc);
+                b.imp(0, vec![23, 13], Form::Alias(76));
+            }
+            out.push(b.done(&format!("same-name-two-dirs{}-{}", layout, order)));
+        }
+    }
     // one file under every spelling the loader accepts: its name, a symlink to it, through a symlinked
     // directory, through explicit manifest paths written "./x", "d/../x", "d/./y"
     {
@@ -1081,7 +1125,7 @@ fn random_case(rng: &mut Rng, n: usize, maxfiles: u64) -> Case {
         // the second lookup place)
         let dir = if flavour == 2 && k < 2 { Vec::new() } else { rng.pick(&dirs).clone() };
         // few stems in nested trees so that names repeat across directories
-        let stem = if flavour == 2 && k < 2 { 13 + k as Id } else if flavour == 2 { 10 + rng.below(3) as Id } else if k < 10 { 10 + k as Id } else { 100 + k as Id };
+        let stem = if flavour == 2 && k < 2 { 13 + k as Id } else if flavour == 2 { 10 + rng.below(5) as Id } else if k < 10 { 10 + k as Id } else { 100 + k as Id };
         let mut p = dir.clone();
         p.push(stem);
         if flavour == 2 && rng.chance(1, 8) {
@@ -1174,6 +1218,43 @@ fn random_case(rng: &mut Rng, n: usize, maxfiles: u64) -> Case {
         }
         if rng.chance(1, 12) {
             b.imp(i, vec![STD, rng.below(4) as Id], Form::Alias(76 + rng.below(2) as Id));
+        }
+    }
+    if flavour == 2 && nf > 2 && rng.chance(1, 3) {
+        // one name next to the entry and in a module directory, imported by that name from a directory without it
+        // (second lookup place) and from the directory with it, loaded in either order
+        let s = 13 + rng.below(2) as Id;
+        let has = |b: &B, p: &[Id]| b.files.iter().any(|(q, _)| q.as_slice() == p || (q.len() == p.len() + 1 && q[..p.len()] == *p && q.last() == Some(&MODSEG)));
+        if has(&b, &[s]) && !has(&b, &[20, s]) {
+            if !has(&b, &[21, s]) {
+                let k = b.files.len() as u32;
+                b.file(vec![21, s], defs_for(rng, k));
+            }
+            let t = 10 + rng.below(3) as Id;
+            if !has(&b, &[20, t]) {
+                let k = b.files.len() as u32;
+                b.file(vec![20, t], defs_for(rng, k));
+            }
+            if !has(&b, &[21, t]) {
+                let k = b.files.len() as u32;
+                b.file(vec![21, t], defs_for(rng, k));
+            }
+            let find = |b: &B, p: &[Id]| b.files.iter().position(|(q, _)| q.as_slice() == p);
+            if let (Some(ia), Some(ib), Some(ie), Some(io)) = (find(&b, &[20, t]), find(&b, &[21, t]), find(&b, &[s]), find(&b, &[21, s])) {
+                let de = b.files[ie].1.defs.clone();
+                let d_own = b.files[io].1.defs.clone();
+                let fa = rand_form(rng, &de, 77, true);
+                b.imp(ia, vec![s], fa);
+                let fb = rand_form(rng, &d_own, 78, true);
+                b.imp(ib, vec![s], fb);
+                let mut two = vec![(vec![20, t], 78), (vec![21, t], 79)];
+                if rng.chance(1, 2) {
+                    two.reverse();
+                }
+                for (p, a) in two {
+                    b.imp(0, p, Form::Alias(a));
+                }
+            }
         }
     }
     if flavour == 2 && rng.chance(1, 3) {
